@@ -49,10 +49,11 @@ ASSUMPTIONS = [
 ]
 RULE = ("signatures generated over all five parameter kinds (<= 7 parameters, defaults, config_args subsets, JobInfo "
         "defaults) as real functions built with exec and wrapped in redun.task.Task; calls generated from Python's own "
-        "binding rules plus a malformed stream (surplus positionals / unknown keywords); every case is keyed by the real "
+        "binding rules plus a malformed stream (surplus positionals / unknown keywords); a fifth of the calls go to the same "
+        "signature wrapped by wraps_task (Task.signature = inner signature) with extra keywords that only the wrapper function takes; every case is keyed by the real "
         "get_arg_defaults + hash_args_eval (hash_struct wrapped to log the structures hashed) and by the Lean model and the "
         "pre-images compared; then one mutation per kind is applied (positional value, keyword value, keyword order, "
-        "default passed by keyword, config value, JobInfo swap, task version) and the real keys compared with what the "
+        "default passed by keyword, config value, JobInfo swap, wrapper-only keyword value, task version) and the real keys compared with what the "
         "property demands. distinct = distinct (signature, config_args, call) triples; a call of a parameterless task is trivial")
 LEVEL_TEXT = ("Proved for all signatures, config_args and calls (no size bound) on the model of the repaired code: a different task "
               "hash, a changed non-config non-JobInfo positional argument (named or variadic slot) or keyword argument changes "
@@ -167,6 +168,47 @@ def build_task(params, cfg, vals, version=None):
     exec(src, env)
     return Task(env["fn"], name="fn", namespace="verif_c15", version=version, source=src,
                 task_options_base={"config_args": list(cfg)} if cfg is not None else {})
+
+
+WRAPPER_KW = ("factor", "copies")     # keywords of the wraps_task wrapper function only (not in the task's signature)
+_wcount = [0]
+
+
+def build_wrapped_task(params, cfg, vals, version=None):
+    """A wraps_task task (default use_wrapper_signature=False): Task.signature is the inner function's signature,
+    the function that runs is the wrapper, which takes the keywords WRAPPER_KW of its own."""
+    from redun.task import Task, get_task_registry, wraps_task
+    src = sig_src(params)
+    env = {"_d": {p[0]: vals.value(p[2]) for p in params if p[2] is not None}}
+    exec(src, env)
+    _wcount[0] += 1
+    inner = Task(env["fn"], name="wfn%d" % _wcount[0], namespace="verif_c15", source=src)
+    get_task_registry().add(inner)
+    opts = {"config_args": list(cfg)} if cfg else {}
+
+    @wraps_task(wrapper_name="_c15w", version=version, **opts)
+    def _c15w(inner_task):
+        def do_wrapped(*task_args, factor=1, copies=1, **task_kwargs):
+            return [factor, copies, inner_task.func(*task_args, **task_kwargs)]
+
+        return do_wrapped
+
+    t = _c15w(inner)
+    t.signature            # resolve (and cache) the inner signature now
+    return t
+
+
+def build_any(params, cfg, vals, version, wkw):
+    return build_task(params, cfg, vals, version) if wkw is None else build_wrapped_task(params, cfg, vals, version)
+
+
+def without(kw, names):
+    """keywords as an item list or dict, minus the wrapper-only ones"""
+    if not names:
+        return kw
+    if isinstance(kw, dict):
+        return {k: v for k, v in kw.items() if k not in names}
+    return [(k, v) for k, v in kw if k not in names]
 
 
 def gen_call(rng, params, malformed=False):
@@ -287,19 +329,23 @@ def bound_slot_keyword(task, args, kw, k):
     return None
 
 
-def case_repr(params, cfg, args, kw, extra=None):
+def case_repr(params, cfg, args, kw, extra=None, wkw=None):
     d = {"def": sig_src(params).split("\n")[0], "config_args": list(cfg), "params": params, "args": args, "kwargs": kw}
+    if wkw is not None:
+        d["wraps_task"] = "task wrapped by wraps_task (signature = the def above); wrapper: def do_wrapped(*task_args, factor=1, copies=1, **task_kwargs)"
+        d["wrapper_keywords"] = list(wkw)
     if extra:
         d.update(extra)
     return d
 
 
-def mutations(rng, real, task, params, cfg, args, kw):
-    """yield (kind, expect_same: bool|None, args2, kw2, task2, detail)"""
+def mutations(rng, real, task, params, cfg, args, kw, wkw=None):
+    """yield (kind, expect_same: bool|None, args2, kw2, task2, detail); `wkw`: keywords consumed by a wraps_task wrapper"""
+    wkw = tuple(wkw or ())
     vk_cfg = any(p[1] == "VK" and p[0] in cfg for p in params)
     # positional value
     for i in range(len(args)):
-        slot = bound_slot_positional(task, [real.vals.value(a) for a in args], {k: real.vals.value(a) for k, a in kw}, i)
+        slot = bound_slot_positional(task, [real.vals.value(a) for a in args], {k: real.vals.value(a) for k, a in without(kw, wkw)}, i)
         if slot is None:
             continue
         name, kind = slot
@@ -325,7 +371,21 @@ def mutations(rng, real, task, params, cfg, args, kw):
                    {"index": i, "slot": name})
     # keyword value
     for j, (k, old) in enumerate(kw):
-        slot = bound_slot_keyword(task, [real.vals.value(a) for a in args], {kk: real.vals.value(a) for kk, a in kw}, k)
+        if k in wkw:
+            # an argument actually passed to the running (wrapper) function, although not in Task.signature
+            if old[1]:
+                k3 = list(kw)
+                k3[j] = (k, (1000 + (old[0] - 1000 + 1) % 3, True))
+                yield ("jobinfo-swap-keyword-wrapper-only", True, args, k3, task, {"keyword": k})
+            else:
+                new = fresh_plain(rng)
+                while new[0] == old[0]:
+                    new = fresh_plain(rng)
+                k2 = list(kw)
+                k2[j] = (k, new)
+                yield ("value-keyword-wrapper-only", False, args, k2, task, {"keyword": k, "slot": "wrapper function"})
+            continue
+        slot = bound_slot_keyword(task, [real.vals.value(a) for a in args], {kk: real.vals.value(a) for kk, a in without(kw, wkw)}, k)
         if slot is None:
             continue
         name, kind = slot
@@ -402,22 +462,39 @@ def run(ctx):
         ([["rest", "VP", None]], ["rest"], [(1, False), (2, False)], []),
         ([], [], [], []),
     ]
-    cases = [(p, c, a, k, False) for p, c, a, k in corpus]
+    cases = [(p, c, a, k, False, None) for p, c, a, k in corpus]
+    # wraps_task tasks called with keywords of the wrapper function (not in Task.signature)
+    wx = [["x", "PK", None], ["y", "PK", (2, False)]]
+    cases += [
+        (wx, [], [(1, False)], [("factor", (2, False))], False, WRAPPER_KW),
+        (wx, [], [(1, False)], [("y", (2, False)), ("factor", (3, False)), ("copies", (4, False))], False, WRAPPER_KW),
+        (wx, ["y"], [(1, False), (5, False)], [("copies", (4, False))], False, WRAPPER_KW),
+        ([["a", "PK", None], ["kw", "VK", None]], [], [(1, False)], [("zz", (3, False)), ("factor", (2, False))], False, WRAPPER_KW),
+        ([["rest", "VP", None], ["cfg", "KO", (1, False)]], ["cfg"], [(1, False), (2, False)], [("factor", (2, False))], False, WRAPPER_KW),
+        ([], [], [], [("factor", (1000, True))], False, WRAPPER_KW),
+    ]
     for i in range(ctx.n(700, 20000)):
         params, cfg = gen_sig(rng)
         for _ in range(rng.choice([1, 2])):
             mal = (i % 10 == 0)
             args, kw = gen_call(rng, params, malformed=mal)
-            cases.append((params, cfg, args, kw, mal))
+            wkw = None
+            if not mal and rng.random() < 0.2:
+                # the same call on a wraps_task task, plus keywords that only the wrapper function takes
+                wkw = WRAPPER_KW
+                kw = list(kw)
+                for name in rng.sample(WRAPPER_KW, rng.choice([1, 1, 2])):
+                    kw.insert(rng.randrange(len(kw) + 1), (name, gen_arg(rng)))
+            cases.append((params, cfg, args, kw, mal, wkw))
 
     with real.log:
         plan = []       # (case, [requests], callbacks)
         reqs = []
         reqs_slot, slot_expect = [], []
-        for params, cfg, args, kw, mal in cases:
+        for params, cfg, args, kw, mal, wkw in cases:
             try:
-                task = build_task(params, cfg, real.vals, version="1")
-                other = build_task(params, cfg, real.vals, version="2")
+                task = build_any(params, cfg, real.vals, "1", wkw)
+                other = build_any(params, cfg, real.vals, "2", wkw)
             except (SyntaxError, ValueError) as e:       # generator produced an impossible signature
                 ctx.count("skipped", type(e).__name__)
                 continue
@@ -425,7 +502,7 @@ def run(ctx):
                 "harness: generated signature does not match inspect.signature"
             valid = True
             try:
-                task.signature.bind(*[real.vals.value(a) for a in args], **{k: real.vals.value(a) for k, a in kw})
+                task.signature.bind(*[real.vals.value(a) for a in args], **{k: real.vals.value(a) for k, a in without(kw, wkw)})
             except TypeError:
                 valid = False
             for p in params:
@@ -436,7 +513,7 @@ def run(ctx):
             impl_def = sorted(defaults)
             muts = []
             if valid:
-                for kind, same, a2, k2, t2, detail in mutations(rng, real, task, params, cfg, args, kw):
+                for kind, same, a2, k2, t2, detail in mutations(rng, real, task, params, cfg, args, kw, wkw):
                     tt = other if t2 == "other-task" else task
                     e2, ah2, _ = real.key(tt, a2, k2)
                     muts.append((kind, same, a2, k2, detail, e2, ah2, tt is other))
@@ -444,7 +521,7 @@ def run(ctx):
             slots = []
             if valid:
                 rv = [real.vals.value(x) for x in args]
-                rk = {k: real.vals.value(x) for k, x in kw}
+                rk = {k: real.vals.value(x) for k, x in without(kw, wkw)}
                 for i in range(len(args)):
                     bs = bound_slot_positional(task, rv, rk, i)
                     slots.append(bs[0] if bs else None)
@@ -453,7 +530,7 @@ def run(ctx):
             reqs.append(key_req("key", params, cfg, args, kw))
             reqs.append(key_req("keyold", params, cfg, args, kw))
             reqs.append("defaults %s i%d %s" % (sx_sig(params), len(args), sx_kw(kw)))
-            plan.append((params, cfg, args, kw, mal, valid, impl, impl_def, e, a, muts))
+            plan.append((params, cfg, args, kw, mal, valid, impl, impl_def, e, a, muts, wkw))
         out = ctx.model("C15", reqs)
         out_slot = ctx.model("C15", reqs_slot)
     for (params, i, want), got in zip(slot_expect, out_slot):
@@ -464,35 +541,36 @@ def run(ctx):
                          case={"def": sig_src(params).split("\n")[0], "index": i}, model=got, impl=w)
 
     old_tree = 0
-    for idx, (params, cfg, args, kw, mal, valid, impl, impl_def, e, a, muts) in enumerate(plan):
+    for idx, (params, cfg, args, kw, mal, valid, impl, impl_def, e, a, muts, wkw) in enumerate(plan):
         mo, mo_old, mo_def = out[3 * idx], out[3 * idx + 1], out[3 * idx + 2]
         kinds = "".join(sorted({p[1] for p in params}))
         trivial = not params
-        ctx.case(key=None if trivial else (repr(params), tuple(cfg), repr(args), repr(kw)),
+        ctx.case(key=None if trivial else (repr(params), tuple(cfg), repr(args), repr(kw), wkw is not None),
                  sample={"def": sig_src(params).split("\n")[0], "config_args": cfg, "args": args, "kwargs": kw, "key": impl[:160]},
-                 nparams=len(params), kinds=kinds or "-", valid="valid" if valid else "malformed", nargs=len(args), nkw=len(kw),
+                 nparams=len(params), kinds=kinds or "-", valid="valid" if valid else "malformed",
+                 task="plain" if wkw is None else "wraps_task+%d wrapper keyword(s)" % sum(1 for k, _ in kw if k in wkw), nargs=len(args), nkw=len(kw),
                  ncfg=len(cfg))
         if mo != impl:
             if mo_old == impl:
                 old_tree += 1
             ctx.mismatch("eval/args pre-image of the real key differs from the model" +
                          (" (the real code matches the model of the code BEFORE the proposed repair)" if mo_old == impl else ""),
-                         case=case_repr(params, cfg, args, kw), model=mo, impl=impl)
+                         case=case_repr(params, cfg, args, kw, wkw=wkw), model=mo, impl=impl)
         md = sorted(bytes.fromhex(x[1:]).decode() for x in re.findall(r"\((s[0-9a-f]*) ", mo_def))
         if md != impl_def:
-            ctx.mismatch("get_arg_defaults keys differ from the model", case=case_repr(params, cfg, args, kw), model=md, impl=impl_def)
+            ctx.mismatch("get_arg_defaults keys differ from the model", case=case_repr(params, cfg, args, kw, wkw=wkw), model=md, impl=impl_def)
         # ---- the property's oracle on the real keys
         for kind, same, a2, k2, detail, e2, ah2, is_other in muts:
             ctx.count("mutation", kind)
             if same is True and (e2 != e or ah2 != a):
                 ctx.violation("C15-key-unstable-" + kind,
                               "calls that differ only in " + kind + " get different eval/args hashes",
-                              case=case_repr(params, cfg, args, kw, {"mutated_args": a2, "mutated_kwargs": k2, "mutation": kind, **detail}),
+                              case=case_repr(params, cfg, args, kw, {"mutated_args": a2, "mutated_kwargs": k2, "mutation": kind, **detail}, wkw=wkw),
                               expected="equal eval_hash and args_hash", actual="different")
             if same is False and e2 == e:
                 ctx.violation("C15-key-collision-" + kind,
                               "calls that differ in " + kind + " (not a config argument, not a JobInfo) get the same eval hash",
-                              case=case_repr(params, cfg, args, kw, {"mutated_args": a2, "mutated_kwargs": k2, "mutation": kind, **detail}),
+                              case=case_repr(params, cfg, args, kw, {"mutated_args": a2, "mutated_kwargs": k2, "mutation": kind, **detail}, wkw=wkw),
                               expected="different eval_hash", actual="equal")
     if old_tree:
         ctx.note("%d case(s): the real code matches the model of the code before the proposed repair "
@@ -523,7 +601,27 @@ def end_to_end(ctx, rng):
         ran.append(("f", a, b, rest, c, d))
         return [a, b, list(rest), d]
 
+    from redun.task import wraps_task
+
+    def scaled_task():
+        @wraps_task()
+        def _scaled_task(inner_task):
+            def do_scale(*task_args, factor=1, **task_kwargs):
+                return factor * inner_task.func(*task_args, **task_kwargs)
+
+            return do_scale
+
+        return _scaled_task
+
+    @scaled_task()
+    @task(name="e2e_base", namespace="verif_c15", version="1")
+    def e2e_base(x, y=0):
+        ran.append(("base", x, y))
+        return x + y
+
     plans = [
+        ("wrapper-only keyword of a wraps_task task", e2e_base, (1,), {"factor": 2}, (1,), {"factor": 3}, False),
+        ("inner default passed explicitly next to a wrapper-only keyword", e2e_base, (1,), {"factor": 2}, (1,), {"y": 0, "factor": 2}, True),
         ("variadic value after *rest with keyword-only config", e2e_g, (1, 2, 3), {}, (1, 5, 3), {}, False),
         ("config value by keyword", e2e_g, (1, 2), {"cfg": 7}, (1, 2), {"cfg": 8}, True),
         ("keyword-only default passed explicitly after *rest", e2e_k, (1, 2), {}, (1, 2), {"kk": 1}, True),
@@ -552,6 +650,22 @@ def end_to_end(ctx, rng):
         elif not same and not executed_again:
             ctx.violation("C15-e2e-cached-collision", "second call differs in a non-config argument but was not executed: " + what,
                           case={"task": t.name, "first": [a1, k1], "second": [a2, k2]}, expected="executed", actual="cache hit")
+    cse_within_one_execution(ctx, e2e_base, task, Scheduler)
+
+
+def cse_within_one_execution(ctx, e2e_base, task, Scheduler):
+    """two calls differing only in a wrapper-only keyword inside ONE execution (CSE keys on the eval hash)"""
+    @task(name="e2e_both", namespace="verif_c15", version="1")
+    def e2e_both():
+        return [e2e_base(5, factor=1), e2e_base(5, factor=10), e2e_base(5, y=1, factor=10)]
+
+    got = Scheduler().run(e2e_both())
+    ctx.case(key=("e2e", "cse-wrapper-keyword"), part="end-to-end", expect="re-executed")
+    if got != [5, 50, 60]:
+        ctx.violation("C15-e2e-wrong-result-collision", "calls differing in a wrapper-only keyword inside one execution share one result (CSE)",
+                      case={"task": "e2e_base (wraps_task, wrapper takes factor=)", "first": [[5], {"factor": 1}], "second": [[5], {"factor": 10}],
+                            "program": "[base(5, factor=1), base(5, factor=10), base(5, y=1, factor=10)]"},
+                      expected="[5, 50, 60]", actual=repr(got))
 
 
 def replay(ctx, case):
@@ -571,7 +685,7 @@ def replay(ctx, case):
     k2 = [(k, tup(a)) for k, a in c.get("mutated_kwargs", c["kwargs"])]
     real = Real()
     with real.log:
-        task = build_task(params, cfg, real.vals, version="1")
+        task = build_any(params, cfg, real.vals, "1", tuple(c["wrapper_keywords"]) if "wrapper_keywords" in c else None)
         for p in params:
             if p[2] is not None:
                 real.label(p[2])
@@ -579,7 +693,7 @@ def replay(ctx, case):
         e2, h2, _ = real.key(task, a2, k2)
         r1, r2 = real.render_key(task, e1, h1), real.render_key(task, e2, h2)
     m1, m2 = ctx.model("C15", [key_req("key", params, cfg, args, kw), key_req("key", params, cfg, a2, k2)])
-    print("def            :", c["def"], " config_args =", cfg)
+    print("def            :", c["def"], " config_args =", cfg, (" | " + c["wraps_task"]) if "wraps_task" in c else "")
     print("call 1         :", args, kw, "\n  real eval_hash", e1, "\n  real pre-image ", r1, "\n  model pre-image", m1)
     print("call 2         :", a2, k2, "\n  real eval_hash", e2, "\n  real pre-image ", r2, "\n  model pre-image", m2)
     ctx.case(key=("replay", repr(c)[:200]), part="replay")
